@@ -34,7 +34,8 @@ fn span() -> gherkin::Span {
     gherkin::Span { start: 0, end: 0 }
 }
 
-const TAGS: &[&str] = &["a", "b", "c", "wip", "slow", "x.y", "ab", "slower"];
+// (with twins that differ in letter case only: different tags)
+const TAGS: &[&str] = &["a", "b", "c", "wip", "slow", "x.y", "ab", "slower", "A", "WIP", "Slow"];
 
 fn rand_tags(r: &mut Rng) -> Vec<String> {
     let n = r.below(3);
@@ -1197,7 +1198,20 @@ pub fn c18(seed: u64, idx: u64, t: &mut Tally) {
     let (stags, srt) = level(&mut r);
     let has_rule = r.chance(1, 2);
     let mut line = 3;
-    let sc = mk_scenario(&mut line, "s".into(), stags.clone(), 1);
+    let mut sc = mk_scenario(&mut line, "s".into(), stags.clone(), 1);
+    // every third scenario is a row expanded from an outline: its own block's tags are among its tags
+    // already, and - a clone of the outline - it still carries ALL the Examples blocks, the sibling
+    // ones with tags of their own (plain and retry ones) that are none of this row's business
+    if idx % 3 == 1 {
+        let blocks = r.range(2, 3);
+        sc.examples = (0..blocks)
+            .map(|b| {
+                let (tags, _) = level(&mut r);
+                gherkin::Examples { keyword: "Examples".into(), name: None, description: None, table: None, tags, span: span(), position: lc(10 + b, 5) }
+            })
+            .collect();
+        t.count("c18.scenarios_carrying_sibling_examples_blocks", 1);
+    }
     let rule = gherkin::Rule {
         keyword: "Rule".into(),
         name: "r".into(),
